@@ -10,7 +10,9 @@
 
    Every function takes the generated tables as ARGUMENTS, so the same definitions describe the
    pinned tree, a repaired tree and a broken tree; Props/C20.v instantiates them with the tables
-   regenerated from /repo on every run.
+   regenerated from /repo on every run.  The one exception is how a `key=value` option of the
+   command line is split (parse_kv): both variants are defined here, and the regenerated constant
+   Gen.CliSwitches.cli_split_once selects the one the code has now.
 
    Abstracted: the TOML parser (a configuration file is its flattened key -> typed value list, or
    nothing when the file is missing, not a regular file, unreadable or not TOML); strings are byte
@@ -19,6 +21,7 @@
    system / user file is) is a parameter of the world. *)
 From Coq Require Import List Bool NArith ZArith String Ascii.
 From XV Require Import Base.Amap Config.Types.
+From XV Require Gen.CliSwitches.       (* for ONE constant, cli_split_once: see parse_kv *)
 Import ListNotations.
 Open Scope N_scope.
 
@@ -164,12 +167,37 @@ Definition env_map (env : list (str * str)) : kvs :=
 
 (* ---- command line: XvcConfig::parse_key_value_vector + collect into a HashMap --------------- *)
 (* elements[0].trim(), parse_to_value(elements[1].trim()); elements[1] of a string without '='
-   is an index-out-of-bounds panic: None *)
-Definition parse_kv (s : str) : option (key * value) :=
+   is an index-out-of-bounds panic: None.
+   parse_kv_all : elements = str.split('=')      -- the value ends at the second '=' (the pinned tree)
+   parse_kv_once: elements = str.splitn(2, '=')  -- the value is everything after the first '='      *)
+Definition parse_kv_all (s : str) : option (key * value) :=
   match split_at 61 s with
   | k :: v :: _ => Some (trim k, parse_to_value (trim v))
   | _ => None
   end.
+
+(* str::splitn(2, sep): None = no separator (one element only) *)
+Fixpoint split_once (sep : N) (s : str) : option (str * str) :=
+  match s with
+  | [] => None
+  | c :: r =>
+    if c =? sep then Some ([], r)
+    else match split_once sep r with
+         | Some (a, b) => Some (c :: a, b)
+         | None => None
+         end
+  end.
+
+Definition parse_kv_once (s : str) : option (key * value) :=
+  match split_once 61 s with
+  | Some (k, v) => Some (trim k, parse_to_value (trim v))
+  | None => None
+  end.
+
+Definition parse_kv_with (once : bool) (s : str) : option (key * value) :=
+  if once then parse_kv_once s else parse_kv_all s.
+
+Definition parse_kv (s : str) : option (key * value) := parse_kv_with Gen.CliSwitches.cli_split_once s.
 
 Fixpoint cli_map_from (vec : list str) (m : kvs) : option kvs :=
   match vec with
